@@ -311,12 +311,13 @@ func checkC09(c caseC09, rec *ev.Rec) *ev.Failure {
 	if c.Side == "read" {
 		return checkC09Read(c, rec)
 	}
+	full := false // set by the enumeration below for its third way of failing
 	newSink := func(k int, forever, partial bool) (io.Writer, *fault.FailWriter) {
 		if c.Fmt == "lzma" && c.L1.ByteSink {
-			b := &fault.ByteFailWriter{FailWriter: fault.FailWriter{K: k, Forever: forever, Partial: partial}}
+			b := &fault.ByteFailWriter{FailWriter: fault.FailWriter{K: k, Forever: forever, Partial: partial, Full: full}}
 			return b, &b.FailWriter
 		}
-		fw := &fault.FailWriter{K: k, Forever: forever, Partial: partial}
+		fw := &fault.FailWriter{K: k, Forever: forever, Partial: partial, Full: full}
 		return fw, fw
 	}
 	dict := uint32(4096)
@@ -350,8 +351,14 @@ func checkC09(c caseC09, rec *ev.Rec) *ev.Failure {
 	}
 	for k := 0; k < W; k++ {
 		for _, forever := range []bool{false, true} {
-			for _, partial := range []bool{false, true} {
+			for way, partial := range []bool{false, true, false} {
 				if partial && cleanLens[k] < 2 {
+					continue
+				}
+				// third way: the failing call reports the complete count
+				// together with the error
+				full = way == 2
+				if full && (forever || cleanLens[k] == 0) {
 					continue
 				}
 				rec.Eval(1)
@@ -362,6 +369,9 @@ func checkC09(c caseC09, rec *ev.Rec) *ev.Failure {
 					region = regionAt(lay, cleanOffs[k])
 				}
 				mode := fmt.Sprintf("forever=%v,partial=%v", forever, partial)
+				if full {
+					mode = "once,all bytes taken and an error returned"
+				}
 				sig := []string{"side", "write", "fmt", c.Fmt}
 				if pm != "" {
 					return ev.Fail(fmt.Sprintf("%s writer: sink write #%d of %d (%s, while writing %s) fails -> %s", c.Fmt, k, W, mode, region, pm),
@@ -385,7 +395,10 @@ func checkC09(c caseC09, rec *ev.Rec) *ev.Failure {
 				}
 				if fw.Fired && k > 0 {
 					rec.Class("wfault@" + c.Fmt + ":" + region)
-					rec.NonTrivial(ev.Hash64(caseHash(c), k, forever, partial))
+					rec.NonTrivial(ev.Hash64(caseHash(c), k, forever, partial, full))
+					if full {
+						rec.Class("wfault_full_count_with_error")
+					}
 				}
 			}
 		}
